@@ -561,7 +561,7 @@ def np_call(ev, name, args, kwargs, node):
     if name in ("abs", "absolute", "fabs"):
         return mk_app("abs", [as_v(ev, arg(0))])
     if name == "power":
-        return powv(as_v(ev, arg(0)), as_v(ev, arg(1)))
+        return ev.int_product(powv(as_v(ev, arg(0)), as_v(ev, arg(1))), as_v(ev, arg(0)), as_v(ev, arg(1)), node)
     if name == "isscalar":
         x = arg(0)
         if isinstance(x, Const) and x.is_number():
@@ -609,7 +609,8 @@ def np_call(ev, name, args, kwargs, node):
             root = storage_root(as_v(ev, kwargs["out"]))
             if root is not None:
                 ev.event("inplace", how="out=", root=root, target="out", node=node, value=kwargs["out"])
-        return {"add": add, "subtract": sub, "multiply": mul}[name](a, b)
+        r = {"add": add, "subtract": sub, "multiply": mul}[name](a, b)
+        return ev.int_product(r, a, b, node) if name == "multiply" else r
     if name == "where":
         if len(A) == 3:
             return mk_app("where", [as_v(ev, A[0]), as_v(ev, A[1]), as_v(ev, A[2])])
